@@ -62,7 +62,9 @@ func (x *hist) pick(kind string) *h.Tok {
 	case "third-party": // vouched for as subject only / actor only / both / not at all
 		t = w.ExtTok("SABN"[r.IntN(4)], drv.Pick(r, []string{"alice", "bob", "a:b", "eve"}))
 	case "foreign":
-		switch r.IntN(4) {
+		switch r.IntN(6) {
+		case 4, 5: // signed with the retired key that only a custom key set may trust - for the tokens its option is about
+			t = w.CraftJWT(drv.Pick(r, []string{"extra-key", "extra-key", "extra-key-expired"}), "at2", "alice", "web2", r.Bool())
 		case 0:
 			if o := w.PoolOf("opaque-at"); len(o) > 0 {
 				t = w.OtherKey(drv.Pick(r, o))
